@@ -560,6 +560,8 @@ fn first_terminal(tokens: &[String], ops: &[Op]) -> Option<usize> {
     None
 }
 
+const BAD_FILTER_APNG: &str = "89504e470d0a1a0a0000000d4948445200000001000000061002000000dde2bf25000000086163544c000000030000000220e3dbec0000001a6663544c0000000000000001000000060000000000000000002d001d0000dc26483a00000008494441547801012a00d5ff03f6c8630500000008494441540000000000000200dc7e3f0500000008494441540000000000000000ee485d870000000849444154000000000100000056f43ae200000008494441540000000100000000d328743700000008494441540000570000000000ffc365c8000000054944415400011f000a039f33ff0000001a6663544c0000000100000001000000010000000000000000002a00260200747c19170000001666644154000000027801edc003a0245996c6f1ff77ee8dc8cca7b2a003ef0000000a6664415400000003724b63ae6ddb6b49b197000000286664415400000004b66ddbb66ddbb66d698c9e964aaf9e323322eef976b76a7aa6873b6bd5af7ecf2bbc1c7fd3aba3cc0000000c6664415400000005f596ff0807aa022b29ae43710000001a6663544c000000060000000100000006000000000000000000420031010175c5648f0000007566644154000000077801edc003a0245996c6f1ff77ee8dc8cca7724b63ae6ddbb66ddbb66ddbb66d698c9e964aaf9e323322eef976b76a7aa6873b6bd5afbefc77bedccb7debdfeadbae79d93ff9878df89ccff8d8ad1b7fbffce897bdf8a51fde2eaffa97ab1fdafc07bdeb5bffc52fdff2d87f0453f6109ebb4b6f5c0000000049454e44ae426082";
+
 pub fn run_c18(ctx: &mut Ctx) {
     ctx.rep.rule = "files that fail at each stage (signature, header, metadata, first row, mid-frame, between frames, trailer; CRCs repaired) and valid files x a prefix that reaches the first terminal event \
         (fatal format error / successful finish / last frame delivered) x ALL continuations up to a bounded length over {next_frame, next_row, read_row, next_frame_info, finish} (exhaustive), random longer ones; \
@@ -568,6 +570,8 @@ pub fn run_c18(ctx: &mut Ctx) {
     let mut rng = ctx.rng.fork(1);
     let mut files = failing_files(&mut rng, ctx.n(14, 70));
     files.extend(small_valid_files(&mut rng, ctx.n(6, 24)));
+    // a 3-frame APNG whose first frame has an undefined filter-type byte in its fifth row (D19: found by the thorough tier)
+    files.push(corpus::TestFile { bytes: unhex(BAD_FILTER_APNG).unwrap_or_default(), source: "fail-mid-frame".into(), model_domain: true });
     let alphabet = [Op::NextFrame(0), Op::NextRow, Op::ReadRow, Op::NextFrameInfo, Op::Finish];
     let conts = all_sequences(&alphabet, ctx.n(3, 4));
     let prefixes: Vec<Vec<Op>> = vec![
@@ -606,7 +610,12 @@ pub fn run_c18(ctx: &mut Ctx) {
                     for (j, tok) in t.tokens.iter().enumerate().skip(ti + 1) {
                         let good = tok.starts_with("err(") || tok == "none";
                         if fatal && !good {
-                            ctx.rep.violation("oracle", &format!("success-after-fatal/{}", f.source), &format!("[{}]: call {} returned `{}` after the fatal error at call {}", rops::ops_string(&ops), j, tok, ti), case(&f.bytes, f.bytes.len(), &ops, &cfg));
+                            // class = which error it was (text up to the first digit or colon) and which call then succeeded
+                            let et = t.err_texts.get(ti).cloned().unwrap_or_default();
+                            let slug: String = et.chars().take_while(|c| !c.is_ascii_digit() && *c != ':' && *c != '(').collect::<String>().trim().to_lowercase().replace(' ', "-");
+                            let slug: String = slug.chars().take(48).collect();
+                            let opname = match ops.get(j) { Some(Op::NextFrame(_)) => "next_frame", Some(Op::NextRow) => "next_row", Some(Op::ReadRow) => "read_row", Some(Op::NextFrameInfo) => "next_frame_info", Some(Op::Finish) => "finish", _ => "other" };
+                            ctx.rep.violation("oracle", &format!("success-after-fatal/{}/{}", slug, opname), &format!("[{}] on a {} file: call {} ({}) returned `{}` after the fatal error at call {} (`{}`)", rops::ops_string(&ops), f.source, j, opname, tok, ti, et), case(&f.bytes, f.bytes.len(), &ops, &cfg));
                             break;
                         }
                         if !fatal && !good {
